@@ -78,6 +78,16 @@ def strategy(tier):
                 lo[k], hi[k] = zero, S.sig(0.5 * v, 4)
             start[k] = S.sig(lo[k] + (hi[k] - lo[k]) * draw(S.fl(0.2, 0.8, 3)), 4)
             c["noise"] = 0.0
+        # container / dtype of the bounds: whole-number lower bounds (typically 0) are often given as Python ints
+        c["bound_form"] = draw(st.sampled_from(["list", "list", "array", "int_lb_list", "int_lb_array", "tuple"]))
+        if c["bound_form"].startswith("int_lb") and mode != "zero-bound":
+            import math
+            flo = [int(math.floor(v)) for v in lo]
+            # catalogue parameters may sit in denominators (N, c): whole-number lower bounds only where they stay positive
+            if not m.get("catalogue") or all(v >= 1 for v in flo):
+                lo = flo
+            else:
+                c["bound_form"] = "list"
         c["lb"], c["ub"], c["start"] = lo, hi, start
         return c
     return case()
@@ -102,7 +112,18 @@ def oracle(case, rec):
     lb, ub, start = np.array(case["lb"]), np.array(case["ub"]), np.array(case["start"])
     c_start_ref = _ref_cost_at(case, y, start)
     c_start_own = float(call(key + "/cost", case, obj.cost, start.copy()))
-    xhat = call(key + "/fit", case, obj.fit, start.copy(), list(case["lb"]), list(case["ub"]))
+    bf = case.get("bound_form", "list")
+    lb_arg, ub_arg = list(case["lb"]), list(case["ub"])
+    if bf == "array":
+        lb_arg, ub_arg = np.array(case["lb"], float), np.array(case["ub"], float)
+    elif bf == "tuple":
+        lb_arg, ub_arg = tuple(case["lb"]), tuple(case["ub"])
+    elif bf == "int_lb_array" and all(float(v) == int(v) for v in case["lb"]):
+        lb_arg = np.array([int(v) for v in case["lb"]])
+    elif bf == "int_lb_list" and all(float(v) == int(v) for v in case["lb"]):
+        lb_arg = [int(v) for v in case["lb"]]
+    rec.label("bounds:" + bf)
+    xhat = call(key + "/fit", case, obj.fit, start.copy(), lb_arg, ub_arg)
     xhat = np.asarray(xhat, float)
     if xhat.shape != start.shape:
         raise PropertyViolation(key + "/shape", "fit returned shape %s for %d free parameters" % (xhat.shape, len(start)), case)
